@@ -276,7 +276,15 @@ class History:
             tb = traceback.format_exc()
             # "not supported by design" (e.g. assignment through a transform without inverse)
             # is not a valid update; anything else on a well-formed update is judged
-            if isinstance(e, NotImplementedError) and self.invalid_on_fresh(op, e, vals_before):
+            shape_change_in_place = (
+                isinstance(e, RuntimeError)
+                and any(m in str(e) for m in ("shape mismatch", "cannot be broadcast", "must match the size", "expanded size"))
+                and kind in ("draw", "assign_view", "assign_cat", "assign_transformed")
+                and writes_in_place(target.x if kind == "draw" else target)
+            )
+            # a value of another (batch) shape cannot be written in place through a view: torch
+            # refuses it, on a fresh model too
+            if (isinstance(e, NotImplementedError) or shape_change_in_place) and self.invalid_on_fresh(op, e, vals_before):
                 self.stats["invalid_update_agree"] = self.stats.get("invalid_update_agree", 0) + 1
                 self.log.add("invalid_update", kind, op.get("id"), type(e).__name__)
                 self._fresh_key = None
@@ -407,12 +415,9 @@ class History:
 
         inner._call = boom
         try:
-            try:
-                read(self.dic[op["outer"]], op["outer_acc"])
-            except Injected:
-                pass
-            except Exception:  # noqa: BLE001
-                pass
+            # observe() seeds the generator like every other read: if the injected failure is not
+            # reached (the outer model never calls this input) the read completes and its value is cached
+            observe(self.dic[op["outer"]], op["outer_acc"])
         finally:
             del inner.__dict__["_call"]
         if state["n"]:
